@@ -126,7 +126,7 @@ class Thermal(_Simu):
             C_e = Operators.Bilinear.UV(groupElem, coef=coef, dof_n=1)
 
             # rescale
-            if self.dim == 2:
+            if self.mesh.dim == 2:
                 thickness = thermalModel.thickness
                 K_e *= thickness
                 C_e *= thickness
